@@ -444,7 +444,9 @@ var (
 
 var schListStr = z.String().Min(5).Email()
 
-var callKinds = []string{"listS", "tdestA", "tdestB", "panicnested", "vnesteddef", "nested", "nestedelem", "badjson", "nulljson", "okjson", "plain", "ctxval", "probectx", "fail1", "fmtopt", "fail2", "coerce", "custom", "catch",
+var schPathOK = z.Struct(z.Schema{"a": z.Int().GT(0, z.IssuePath("elsewhere")).LT(100, z.IssuePath("other.place"))})
+
+var callKinds = []string{"issuepathok", "listS", "tdestA", "tdestB", "panicnested", "vnesteddef", "nested", "nestedelem", "badjson", "nulljson", "okjson", "plain", "ctxval", "probectx", "fail1", "fmtopt", "fail2", "coerce", "custom", "catch",
 	"vslice", "vptrcatch", "vptrnil", "pterr", "list2", "primcatch", "primcatchok", "stest", "pnotnil", "scoerce", "slicetest", "freshfail", "freshvalidate"}
 
 // a schema that is BUILT for the current episode and first used by the goroutines of that episode
@@ -586,6 +588,12 @@ func doCall(kind, tok string) callOut {
 		fd := freshD{Name: "ab", Age: 3, Tags: []string{"ok", "z"}}
 		m = epFresh.Validate(&fd)
 		extra = fmt.Sprint(fd)
+	case "issuepathok":
+		// a fully successful call whose tests carry IssuePath options
+		m = schPathOK.Parse(map[string]any{"a": 5}, &d)
+		y := 7
+		l2 := z.Int().GT(0, z.IssuePath("elsewhere")).Validate(&y)
+		extra = fmt.Sprint(len(l2))
 	case "listS":
 		// a primitive used on its own returns a LIST of issues (two here), as list2 does with other contents
 		var sd string
